@@ -138,8 +138,12 @@ impl<T: Read + Seek> ClassRead for T {
         Ok(buf)
     }
     fn read_u8_vec(&mut self, size: usize) -> Result<Vec<u8>> {
-        let mut vec = std::vec::from_elem(0, size);
-        self.read_exact(&mut vec)?;
+        // `size` can be an unchecked 32 bit length field of the input: only allocate for data that's actually there
+        let mut vec = Vec::new();
+        let read = self.by_ref().take(size as u64).read_to_end(&mut vec)?;
+        if read != size {
+            bail!("couldn't read {size} bytes, the data ends after {read} bytes");
+        }
         Ok(vec)
     }
 }
